@@ -75,15 +75,17 @@ CLAIMS = {
         technique="Lean 4 proof (induction over the scan) + differential correspondence of the dependency graph",
     ),
     "C04": dict(
-        text="get_critical_path was repaired (fix 2f8e653: the longest chain computed in one pass over the lines). Model LCD.cpTotal "
-             "mirrors the repaired function; Spec.longestChain is the declarative DP, proved to be the maximum over all genuine chains "
-             "(longestChain_ge_chain, longestChain_is_max). Every kernel: reported total vs the model, vs Spec.longestChain in both "
-             "directions, marked lines form a chain, per-line CP latencies are the chain's stages. Theorems about the unrepaired "
-             "variant (cp_underreports witness, cp_never_overreports) are kept.",
-        category="translation_validation",
-        design="5/C04", note=COMMON_NOTE + "Claimed below proof level until cpTotal_eq_longestChain (model of the repaired function = the declarative DP) "
-             "is merged; networkx is no longer involved in the path selection.",
-        technique="Lean 4 model + Spec DP with maximality proof; differential correspondence and two-sided Spec oracle",
+        text="get_critical_path was repaired (fix 2f8e653: the longest chain computed in one pass over the lines). Theorems for all "
+             "kernels with strictly increasing lines, non-negative latencies and known load stages: cpTotal_eq_longestChain (the "
+             "model of the repaired function equals the declarative DP), longestChain_is_max, hence cp_is_longest (the total is "
+             "attained by a genuine chain and dominates all chains), cp_ge_every_instr, cp_ge_every_chain; cp_lines_form_chain and "
+             "cp_lines_sum (the marked lines are linked by dependencies, ascending, and their per-line CP latencies add up to the "
+             "total), cp_marked_chain_is_longest, cp_no_deps_repaired. Theorems about the unrepaired variant (cp_underreports, "
+             "cp_never_overreports) are kept as its witness. Tie: total and marks of the real function vs LCD.cpTotal / cpMarks; "
+             "oracle Spec.longestChain in both directions, chain and stage validation.",
+        design="5/C04", note=COMMON_NOTE + "Hypotheses LoadsKnown / NonnegWeights are necessary (counterexamples proved); networkx is no longer involved in the "
+             "path selection. Among chains of equal maximal length the implementation may mark another one than the model (counted).",
+        technique="Lean 4 proof (DP equals the declarative longest chain; maximality) + differential correspondence + Spec oracle",
     ),
     "C05": dict(
         text="Theorems for all kernels with strictly increasing lines: offset_ok/map_back/double_disjoint; pathsFrom_iff (the search "
